@@ -58,6 +58,7 @@ type World struct {
 	Provider *awsp.CloudProvider
 	C        *controller.Controller
 	Accepted map[string]int
+	Seen     map[string][2]int // ghost: last observed node size per group in this controller lifetime
 	Rng      *rand.Rand
 
 	// lister snapshot of the scan in progress
@@ -196,7 +197,7 @@ func (w *World) curGroup() string {
 
 // NewWorld builds an empty world (no nodes, no pods) with the given groups and ASG bounds.
 func NewWorld(seed int64, gorder []string, cfgs map[string]Cfg, asgs map[string]Asg, dryAll bool) (*World, error) {
-	w := &World{Alive: true, DryAll: dryAll, Gorder: append([]string{}, gorder...), Cfgs: cfgs, Accepted: map[string]int{},
+	w := &World{Alive: true, DryAll: dryAll, Gorder: append([]string{}, gorder...), Cfgs: cfgs, Accepted: map[string]int{}, Seen: map[string][2]int{},
 		Rng: rand.New(rand.NewSource(seed)), LagView: map[string]map[string]*v1.Node{}, Order: map[string][]string{}, curIdx: -1, lastGet: map[string]*v1.Node{}}
 	w.J = NewJournal()
 	w.J.CurG = w.curGroup
@@ -246,6 +247,7 @@ func (w *World) newController() error {
 func (w *World) Restart() error {
 	for _, g := range w.Gorder {
 		w.Accepted[g] = Never
+		w.Seen[g] = [2]int{0, 0}
 	}
 	w.Alive = true
 	return w.newController()
@@ -491,6 +493,7 @@ func Build(seed int64, s *State) (*World, error) {
 		}
 		w.Order[g] = append([]string{}, gs.Order...)
 		w.Accepted[g] = gs.Accepted
+		w.Seen[g] = [2]int{gs.SeenCpu, gs.SeenMem}
 	}
 	// provider cache: refresh once so that it knows the instances, then force the logged cache if it differs
 	w.J.Begin(nil)
@@ -548,7 +551,7 @@ func (w *World) Project() *State {
 	nodes := w.listNodes()
 	pods := w.listPods()
 	for _, g := range w.Gorder {
-		gs := Group{Cfg: w.Cfgs[g], Api: NodeMap{}, Pods: []Pod{}, Accepted: w.Accepted[g]}
+		gs := Group{Cfg: w.Cfgs[g], Api: NodeMap{}, Pods: []Pod{}, Accepted: w.Accepted[g], SeenCpu: w.Seen[g][0], SeenMem: w.Seen[g][1]}
 		for _, n := range nodes {
 			if n.Labels[LabelKey] == g {
 				gs.Api[n.Name] = w.ProjectNode(n)
